@@ -932,3 +932,218 @@ Proof.
   split; [exact Hnot|]. unfold api_list. destruct (closed (api_remove c s name).1); [unfold not; simpl; intros H; exact H|].
   intros Hin. apply in_sort_str in Hin. apply elem_of_list_In, elem_of_elements in Hin. contradiction.
 Qed.
+
+(* ------------------------------------------------------------------ evaluation helpers *)
+
+Definition fails (cl : string) (c : cfg) (h : list step) : bool := clause_fails cl (spec_of_model c h).
+Ltac vm := vm_compute; repeat split; try reflexivity; try (let HH := fresh in intros HH; discriminate HH); eauto.
+
+(* ------------------------------------------------------------------ the three repaired defects: positive on cfg_repo,
+   and the witnesses that used to refute them still do so on the tree before the fix (seeded-defect tests) *)
+
+Definition w_close : list step := [SFs (OCreate "f"); SAdd "f"; SClose].
+Definition w_close_dir : list step := [SFs (OMkdir "d"); SFs (OCreate "d/a"); SFs (OMkdir "d/s"); SAdd "d"; SFs (OCreate "d/b"); SClose; SAdd "d"; SList].
+Definition w_unclean : list step := [SFs (OMkdir "d"); SAdd "./d"; SRemove "d"].
+Definition w_fifo : list step := [SFs (OMkfifo "p"); SAdd "p"; SRemove "p"].
+
+Example repaired_defects_witnesses :
+  (let s := run cfg_repo w_close st_init in gone s = true ∧ ledger_list s = [] ∧ sizes s = (0, 0, 0, 0, 0) ∧ infra s = (false, false, false))
+  ∧ (let s := run cfg_repo w_close_dir st_init in gone s = true ∧ ledger_list s = [] ∧ regs_list s = [] ∧ infra s = (false, false, false))
+  ∧ spec_of_model cfg_repo w_close = [] ∧ spec_of_model cfg_repo w_close_dir = []
+  ∧ spec_of_model cfg_repo w_unclean = [] ∧ api_list (run cfg_repo w_unclean st_init) = []
+  ∧ spec_of_model cfg_repo w_fifo = [] ∧ api_list (run cfg_repo [SFs (OMkfifo "p"); SAdd "p"] st_init) = [].
+Proof. vm. Qed.
+
+Theorem before_fix_refuted :
+  (* fixed: 833aa17 (was key close-leaks-descriptors) *)
+  (let s := run cfg_before_fix w_close st_init in gone s = true ∧ ledger_list s = [(1, "f")] ∧ fails "close-releases-all" cfg_before_fix w_close = true)
+  (* fixed: c3f1f06 (was key unclean-spelling) *)
+  ∧ (api_list (run cfg_before_fix w_unclean st_init) = ["./d"] ∧ fails "removed-not-listed" cfg_before_fix w_unclean = true)
+  (* fixed: c3f1f06 (was key fifo-added) *)
+  ∧ (api_list (run cfg_before_fix w_fifo st_init) = ["p"] ∧ fails "all-removed-empty" cfg_before_fix w_fifo = true).
+Proof. vm. Qed.
+
+(* ------------------------------------------------------------------ refutations that remain on the tree as it is (cfg_repo),
+   each tied to its KNOWN_FINDINGS.txt key *)
+
+(* key symlink-added *)
+Definition w_link_target : list step := [SFs (OCreate "f"); SFs (OSymlink "f" "l"); SAdd "f"; SAdd "l"; SRemove "l"; SRemove "f"].
+Definition w_link_deleted : list step := [SFs (OCreate "f"); SFs (OSymlink "f" "l"); SAdd "l"; SFs (OUnlink "f")].
+Definition w_unclean_link_close : list step := [SFs (OCreate "x"); SFs (OSymlink "/T//x" "l"); SAdd "l"; SClose].
+(* key watched-dir-renamed *)
+Definition w_dir_renamed : list step := [SFs (OMkdir "d"); SFs (OCreate "d/a"); SAdd "d"; SFs (ORename "d" "e")].
+(* key fifo-entry *)
+Definition w_fifo_entry_left : list step := [SFs (OMkdir "d"); SAdd "d"; SFs (OMkfifo "d/p"); SRemove "d"].
+Definition w_fifo_entry : list step := [SFs (OMkdir "d"); SAdd "d"; SFs (OMkfifo "d/p"); SFs (OCreate "d/x")].
+Definition w_fifo_pre : list step := [SFs (OMkdir "d"); SFs (OMkfifo "d/p"); SAdd "d"; SFs (OCreate "d/x")].
+(* key dangling-symlink-entry *)
+Definition w_failed_add : list step := [SFs (OMkdir "d"); SFs (OSymlink "nowhere" "d/z"); SAdd "d"; SFs (OCreate "d/a")].
+Definition w_dangling : list step :=
+  [SFs (OMkdir "d"); SAdd "d"; SHold; SFs (OSymlink "nowhere" "d/a"); SFs (OCreate "d/b"); SRelease; SFs (OCreate "d/c")].
+(* key symlink-entry *)
+Definition w_link_entry : list step :=
+  [SFs (OMkdir "d"); SFs (OCreate "d/f"); SFs (OSymlink "f" "d/l"); SAdd "d"; SFs (OUnlink "d/l"); SFs (OCreate "d/l")].
+Definition w_dir_removed : list step :=
+  [SFs (OMkdir "d"); SFs (OCreate "d/f"); SFs (OSymlink "f" "d/l"); SAdd "d"; SFs (OUnlink "d/l"); SFs (OUnlink "d/f"); SFs (ORmdir "d")].
+(* key watched-file-overwritten *)
+Definition w_overwritten : list step := [SFs (OCreate "a"); SAdd "a"; SFs (OCreate "b"); SFs (ORename "b" "a")].
+(* key remove-of-unadded-succeeds *)
+Definition w_remove_unadded : list step := [SFs (OMkdir "d"); SAdd "d"; SFs (OCreate "d/x"); SRemove "d/x"].
+(* key entry-user-removed *)
+Definition w_entry_user_removed : list step := [SFs (OMkdir "d"); SFs (OCreate "d/a"); SAdd "d"; SAdd "d/a"; SRemove "d/a"; SFs (OWrite "d/a")].
+(* key rename-then-recreate-in-burst *)
+Definition w_burst : list step := [SFs (OMkdir "d"); SFs (OCreate "d/l"); SAdd "d"; SHold; SFs (ORename "d/l" "d/c"); SFs (OCreate "d/l"); SRelease].
+
+(* close_releases_all needs [names_clean]: a watch added through a symlink with an unclean absolute target is filed under
+   the raw target, which Close (cleaning the key) does not find — the descriptor survives the repaired Close.  key symlink-added *)
+Theorem close_needs_clean_names_refuted :
+  let s := run cfg_repo w_unclean_link_close st_init in
+  gone s = true ∧ ledger_list s = [(1, "/T//x")] ∧ fails "close-releases-all" cfg_repo w_unclean_link_close = true.
+Proof. vm. Qed.
+
+(* all_removed_empty in full is still false; what can be left over and why (one witness per cause):
+   - key symlink-added: the link stays in byUser/WatchList, a path↦0 and a seen entry stay (Remove(link) fails)
+   - key watched-dir-renamed: the entries of a renamed directory keep wd/path/byDir/seen entries and descriptors
+   - key fifo-entry: seen[""] (set for a FIFO entry) is never cleared
+   - key watched-file-overwritten: the file that replaced a watched file is re-watched internally
+   - key dangling-symlink-entry: an Add that failed half-way leaves the directory and earlier entries watched *)
+Theorem all_removed_empty_refuted :
+  (∃ h, let s := run cfg_repo h st_init in api_list s = ["l"] ∧ sizes s = (0, 1, 0, 1, 1) ∧ t_path (T s) !! "l" = Some 0 ∧ fails "remove-of-added-fails" cfg_repo h = true)
+  ∧ (∃ h, let s := run cfg_repo h st_init in api_list s = [] ∧ ledger_list s = [(2, "d/a")] ∧ sizes s = (1, 1, 1, 1, 0) ∧ fails "all-removed-empty" cfg_repo h = true)
+  ∧ (∃ h, let s := run cfg_repo h st_init in api_list s = [] ∧ ledger_list s = [] ∧ sizes s = (0, 0, 0, 1, 0) ∧ fails "all-removed-empty" cfg_repo h = true)
+  ∧ (∃ h, let s := run cfg_repo h st_init in api_list s = [] ∧ ledger_list s = [(2, "a")] ∧ sizes s = (1, 1, 1, 1, 0) ∧ fails "all-removed-empty" cfg_repo h = true)
+  ∧ (∃ h, let s := run cfg_repo h st_init in api_list s = [] ∧ ledger_list s = [(1, "d"); (2, "d/a")] ∧ fails "all-removed-empty" cfg_repo h = true).
+Proof.
+  split; [exists w_link_target; vm|].
+  split; [exists w_dir_renamed; vm|].
+  split; [exists w_fifo_entry_left; vm|].
+  split; [exists w_overwritten; vm|].
+  exists w_failed_add. vm.
+Qed.
+
+(* watch_end_closes_fd needs its hypotheses.  keys symlink-added, watched-dir-renamed *)
+Theorem watch_end_closes_fd_refuted :
+  (∃ h, let s := run cfg_repo h st_init in ledger_list s = [(1, "f")] ∧ fails "deleted-file-descriptor-open" cfg_repo h = true)
+  ∧ (∃ h, let s := run cfg_repo h st_init in ledger_list s = [(2, "d/a")] ∧ api_list s = [] ∧ fails "all-removed-empty" cfg_repo h = true).
+Proof. split; [exists w_link_deleted|exists w_dir_renamed]; vm. Qed.
+
+(* Remove of a path the user never added succeeds.  key remove-of-unadded-succeeds;
+   Remove of a user-added entry of a watched directory silences the directory for it.  key entry-user-removed *)
+Theorem remove_semantics_refuted :
+  (fails "remove-of-unadded-succeeds" cfg_repo w_remove_unadded = true ∧ ledger_list (run cfg_repo w_remove_unadded st_init) = [(1, "d")])
+  ∧ (fails "change-missed" cfg_repo w_entry_user_removed = true ∧ api_list (run cfg_repo w_entry_user_removed st_init) = ["d"]).
+Proof. vm. Qed.
+
+(* ------------------------------------------------------------------ C18 *)
+
+(* names: an event carries the link name when the watch has one, else the watch's own (cleaned) name *)
+Theorem names_user_spelling name link mask :
+  e_name (newEvent name link mask) = if String.eqb link "" then name else link.
+Proof. reflexivity. Qed.
+
+(* Create is only ever sent for a name that is not marked seen, and a successful internalWatch marks what it returns *)
+Theorem create_only_if_unseen s p k :
+  tb_seenBefore (T s) p = true →
+  (sendCreateIfNew s p k) = (let '(s1, r) := internalWatch aw_entry s p k in
+                             match r with RErr e => (s1, Some e) | ROk p' => (set_T (λ t, tb_markSeen t p' true) s1, None) end).
+Proof. intros H. unfold sendCreateIfNew. rewrite H. reflexivity. Qed.
+
+Theorem create_marks_returned_name s p k s' :
+  sendCreateIfNew s p k = (s', None) → closed s = false →
+  ∃ p', p' ∈ t_seen (T s').
+Proof.
+  unfold sendCreateIfNew, sendEvent. intros H C. rewrite C in H. simpl in H.
+  destruct (tb_seenBefore (T s) p); simpl in H.
+  - destruct (internalWatch aw_entry s p k) as [s1 [p'|e]]; [|discriminate]. injection H as <-. exists p'. simpl. set_solver.
+  - destruct (internalWatch aw_entry _ p k) as [s1 [p'|e]]; [|discriminate]. injection H as <-. exists p'. simpl. set_solver.
+Qed.
+
+Definition creates (n : string) (s : st) : nat := length (filter (fun e => String.eqb (e_name e) n && has (e_op e) Create) (evs s)).
+
+(* keys fifo-entry, dangling-symlink-entry *)
+Theorem create_once_refuted :
+  (∃ h, creates "d/p" (run cfg_repo h st_init) = 2%nat ∧ fails "create-once" cfg_repo h = true)
+  ∧ (∃ h, creates "d/a" (run cfg_repo h st_init) = 2%nat ∧ creates "d/b" (run cfg_repo h st_init) = 0%nat
+          ∧ fails "create-once" cfg_repo h = true ∧ fails "create-missed" cfg_repo h = true).
+Proof. split; [exists w_fifo_entry|exists w_dangling]; vm. Qed.
+
+(* key fifo-entry *)
+Theorem preexisting_silent_refuted :
+  ∃ h, creates "d/p" (run cfg_repo h st_init) = 1%nat ∧ fails "preexisting-silent" cfg_repo h = true.
+Proof. exists w_fifo_pre. vm. Qed.
+
+(* key symlink-entry; key rename-then-recreate-in-burst *)
+Theorem recreate_refuted :
+  (∃ h, evs (run cfg_repo h st_init) = [] ∧ fails "recreate" cfg_repo h = true ∧ fails "remove-missed" cfg_repo h = true)
+  ∧ (∃ h, creates "d/l" (run cfg_repo h st_init) = 0%nat ∧ creates "d/c" (run cfg_repo h st_init) = 1%nat ∧ fails "create-missed" cfg_repo h = true).
+Proof. split; [exists w_link_entry|exists w_burst]; vm. Qed.
+
+(* key symlink-entry: removing the symlink entry d/l is not reported when it happens; its Remove arrives only when the TARGET d/f is deleted *)
+Theorem dir_removed_refuted :
+  ∃ h, rev (evs (run cfg_repo h st_init)) = [ {| e_name := "d/l"; e_op := Remove |}; {| e_name := "d/f"; e_op := Remove |}; {| e_name := "d"; e_op := Remove |} ]
+       ∧ fails "remove-missed" cfg_repo h = true.
+Proof. exists w_dir_removed. vm. Qed.
+
+(* key dangling-symlink-entry: events under a directory whose Add failed *)
+Theorem names_user_spelling_refuted :
+  ∃ h, api_list (run cfg_repo h st_init) = [] ∧ fails "names-user-spelling" cfg_repo h = true.
+Proof. exists w_failed_add. vm. Qed.
+
+(* where none of the defect ingredients occurs the model meets every clause: bursts, name re-use, overwrite by rename,
+   pre-existing entries, unclean spelling of the Add, removal of the directory (a bounded statement, by evaluation) *)
+Definition h_plain : list step :=
+  [SFs (OMkdir "d"); SFs (OCreate "d/pre"); SAdd "./d//"; SFs (OCreate "d/a"); SFs (OWrite "d/a"); SFs (OChmod "d/a"); SFs (ORename "d/a" "d/b");
+   SFs (OUnlink "d/b"); SFs (OCreate "d/b"); SFs (OMkdir "d/s"); SFs (ORmdir "d/s"); SList;
+   SHold; SFs (OCreate "d/x"); SFs (OCreate "d/y"); SFs (OCreate "d/z"); SFs (OUnlink "d/y"); SRelease;
+   SHold; SFs (OUnlink "d/x"); SFs (OCreate "d/x"); SRelease;
+   SFs (OCreate "d/o"); SFs (ORename "d/o" "d/x");
+   SFs (OUnlink "d/pre"); SFs (OUnlink "d/b"); SFs (OUnlink "d/x"); SFs (OUnlink "d/z"); SFs (ORmdir "d"); SList].
+Example plain_history_meets_spec : spec_of_model cfg_repo h_plain = [] ∧ length (evs (run cfg_repo h_plain st_init)) = 22%nat.
+Proof. vm. Qed.
+
+(* ------------------------------------------------------------------ C18, history level: PARTIAL (bounded)
+   create_once / preexisting_silent / recreate / dir_removed(entries) / change reporting / names, as the clauses of the
+   specification (KqModel section 7) evaluated on the model's own trace, for EVERY history of a finite family.
+   Side conditions, as explicit predicates on the history:
+     - the steps are drawn from [alphabet] / [alpha_b]: no symlink, no FIFO, no Remove of an entry, no rename of the
+       watched directory, no overwrite of a user-watched file (the ingredients of the remaining KNOWN_FINDINGS keys);
+     - in a burst, [no_rename_recreate]: no name is created after having been renamed away before the reader runs
+       (key rename-then-recreate-in-burst).
+   The gap to the full statements: the quantifier is bounded (4 free steps after the prologue; bursts of 3 plus one step);
+   for unbounded histories the statement rests on the differential runs and on the state-level lemmas above. *)
+Definition prologue : list step := [SFs (OMkdir "d"); SFs (OCreate "d/pre"); SAdd "d"].
+Definition alphabet : list step :=
+  [SFs (OCreate "d/a"); SFs (OCreate "d/b"); SFs (OWrite "d/a"); SFs (OUnlink "d/a"); SFs (OUnlink "d/pre");
+   SFs (ORename "d/a" "d/b"); SFs (ORename "d/b" "d/pre"); SFs (OMkdir "d/s"); SFs (ORmdir "d/s"); SFs (OChmod "d/b")].
+Definition alpha_b : list step :=
+  [SFs (OCreate "d/a"); SFs (OCreate "d/b"); SFs (OUnlink "d/a"); SFs (OUnlink "d/pre"); SFs (ORename "d/a" "d/b");
+   SFs (OMkdir "d/s"); SFs (ORmdir "d/s"); SFs (OWrite "d/pre")].
+Fixpoint words (al : list step) (n : nat) : list (list step) :=
+  match n with O => [[]] | S n' => flat_map (fun w => map (fun x => x :: w) al) (words al n') end.
+Definition c18_clauses : list string :=
+  ["create-once"; "preexisting-silent"; "create-missed"; "recreate"; "remove-missed"; "change-missed"; "names-user-spelling"].
+Definition c18_ok (h : list step) : bool :=
+  forallb (fun v : nat * viol => negb (existsb (String.eqb v.2.1) c18_clauses)) (spec_of_model cfg_repo h).
+Fixpoint no_rename_recreate (away : list string) (w : list step) : bool :=
+  match w with
+  | [] => true
+  | SFs (ORename a b) :: r => negb (existsb (String.eqb b) away) && no_rename_recreate (a :: away) r
+  | SFs (OCreate p) :: r | SFs (OMkdir p) :: r => negb (existsb (String.eqb p) away) && no_rename_recreate away r
+  | _ :: r => no_rename_recreate away r
+  end.
+
+Lemma c18_plain_sweep : forallb (fun w => c18_ok (prologue ++ w)) (words alphabet 4) = true.
+Proof. vm_compute. reflexivity. Qed.
+Theorem c18_clauses_bounded_plain_partial : ∀ w, In w (words alphabet 4) → c18_ok (prologue ++ w) = true.
+Proof. intros w Hw. exact (proj1 (forallb_forall _ _) c18_plain_sweep w Hw). Qed.
+
+Definition burst_family : list (list step * step) := flat_map (fun w => map (fun x => (w, x)) alpha_b) (words alpha_b 3).
+Lemma c18_burst_sweep :
+  forallb (fun wx : list step * step => negb (no_rename_recreate [] wx.1) || c18_ok (prologue ++ SHold :: wx.1 ++ [SRelease; wx.2])) burst_family = true.
+Proof. vm_compute. reflexivity. Qed.
+Theorem c18_clauses_bounded_burst_partial : ∀ w x,
+  In (w, x) burst_family → no_rename_recreate [] w = true → c18_ok (prologue ++ SHold :: w ++ [SRelease; x]) = true.
+Proof.
+  intros w x Hw Hs. pose proof (proj1 (forallb_forall _ _) c18_burst_sweep (w, x) Hw) as H. simpl in H.
+  rewrite Hs in H. exact H.
+Qed.
